@@ -205,21 +205,24 @@ def generate(ctx):
             yield 'transforms', {'cfg': fc, 'seed': seed, 'max_onehot': 0, 'max_model_analysis': 6,
                                  'lead': [[], [3]][n % 2]}
     if ctx.tier == 'thorough':
-        big = [dict(M=12, L=13, I=37, J=19, spacing='gauss', offset=0.0, radius=1.0),
-               dict(M=10, L=11, I=24, J=21, spacing='equiangular', offset=0.1, radius=7.0 / 3.0),
-               dict(M=22, L=23, I=64, J=32, spacing='gauss', offset=0.0, radius=1.0, name='T21'),
-               dict(M=32, L=33, I=64, J=32, spacing='gauss', offset=0.0, radius=1.0, name='TL31'),
-               dict(M=22, L=23, I=64, J=32, spacing='equiangular', offset=0.0, radius=1.0, name='T21-equiangular')]
+        big = [dict(M=12, L=13, I=37, J=19, spacing='gauss', offset=0.0, radius=1.0, fast=1, dense=1),
+               dict(M=10, L=11, I=24, J=21, spacing='equiangular', offset=0.1, radius=7.0 / 3.0, fast=0, dense=1),
+               dict(M=22, L=23, I=64, J=32, spacing='gauss', offset=0.0, radius=1.0, fast=1, dense=1),        # T21
+               dict(M=32, L=33, I=64, J=32, spacing='gauss', offset=0.0, radius=1.0, fast=0, dense=0),        # TL31
+               dict(M=22, L=23, I=64, J=32, spacing='equiangular', offset=0.0, radius=1.0, fast=0, dense=0)]  # T21, equiangular
         for n, c in enumerate(big):
-            c = {k: v for k, v in c.items() if k != 'name'}
+            wf, wd = c['fast'], c['dense']
+            c = {k: v for k, v in c.items() if k not in ('fast', 'dense')}
             seed = int(rng.integers(0, 2 ** 31))
             yield 'layout', {'cfg': dict(c, impl='real')}
             yield 'tables', {'cfg': dict(c, impl='real')}
             yield 'transforms', {'cfg': dict(c, impl='real'), 'seed': seed, 'max_onehot': 6, 'max_model_analysis': 1,
-                                 'lead': []}
-            fc = dict(c, impl='fast', base=4, stacked=n % 2, rev=0)
-            yield 'layout', {'cfg': fc}
-            yield 'transforms', {'cfg': fc, 'seed': seed, 'max_onehot': 4, 'max_model_analysis': 1, 'lead': []}
+                                 'lead': [], 'dense_analysis_model': bool(wd)}
+            if wf:
+                fc = dict(c, impl='fast', base=4, stacked=n % 2, rev=0)
+                yield 'layout', {'cfg': fc}
+                yield 'transforms', {'cfg': fc, 'seed': seed, 'max_onehot': 4, 'max_model_analysis': 1, 'lead': [],
+                                     'dense_analysis_model': False}
 
 
 # ---------------------------------------------------------------------------
@@ -412,7 +415,8 @@ def r_transforms(ctx, a):
         ctx.corr(f'to_modal on synthesised one-hot fields [{tag}]', Y[apick], model_analysis(ctx, c, g, Z[apick]),
                  scale=analysis_scale(c, g, Z[apick]))
     ctx.corr(f'to_nodal dense [{tag}]', Z[sl_d], model_synth(ctx, c, g, X[sl_d]), scale=synth_scale(c, g, X[sl_d]))
-    ctx.corr(f'to_modal dense [{tag}]', Y[sl_d], model_analysis(ctx, c, g, Z[sl_d]), scale=analysis_scale(c, g, Z[sl_d]))
+    if a.get('dense_analysis_model', True):
+        ctx.corr(f'to_modal dense [{tag}]', Y[sl_d], model_analysis(ctx, c, g, Z[sl_d]), scale=analysis_scale(c, g, Z[sl_d]))
     iscale = float(np.einsum('j,bij->b', np.abs(w), np.abs(Z[sl_d])).max() * r2) + 1e-300
     ctx.corr(f'integrate [{tag}]', INT[sl_d], ctx.model.call(3, [B, In, Jn], [w.ravel(), [float(g.radius)], Z[sl_d].ravel()]), scale=iscale)
     if not fast:
@@ -465,9 +469,12 @@ def r_transforms(ctx, a):
         ctx.count('roundtrip_oracle:skipped(aliasing grid)')
     # sht_gram on the implementation: round trip = Gram operator of the dumped tables, on every grid (aliasing included)
     if not fast:
-        Gr = np.einsum('j,ia,ajl,ib,bjk->albk', w, f, p, f, p)
-        pred = np.einsum('albk,nbk->nal', Gr, X[:n1 + B])
-        gs = float(np.einsum('j,ia,ajl,ib,bjk->albk', np.abs(w), np.abs(f), np.abs(p), np.abs(f), np.abs(p)).max()) + 1e-300
+        KL = rows * cols
+        Gr = ((f.T @ f)[:, None, :, None] * np.einsum('j,ajl,bjk->albk', w, p, p, optimize=True)).reshape(KL, KL)
+        Ga = ((np.abs(f).T @ np.abs(f))[:, None, :, None]
+              * np.einsum('j,ajl,bjk->albk', np.abs(w), np.abs(p), np.abs(p), optimize=True))
+        pred = (X[:n1 + B].reshape(n1 + B, KL) @ Gr.T).reshape(n1 + B, rows, cols)
+        gs = float(Ga.max()) + 1e-300
         ctx.oracle_close('analysis(synth x) = Gram operator of the tables applied to x (one-hot and dense x, any grid)',
                          Y[:n1 + B], pred, scale=gs * 8 * max(1.0, float(np.abs(xd).sum(axis=(1, 2)).max())))
     # integral identity (needs the rule exact for degree l only: x band-limited to l <= D)
